@@ -753,6 +753,112 @@ def part_programs(chk, c2m, d, quick):
     return len(texts) - invalid, findings
 
 
+
+# ------------------------------------------------------------------ P: address constants
+ADDR_PROBES = {
+    # which spellings of address constants the tree under test accepts / evaluates right (its supported subset is measured,
+    # not assumed): the generator switch is on only when the probe program prints 'ok' under c2m -ei
+    'DECAY_SUBOBJECT': 'int g[3][4]; struct S { int a; int v[3]; } s;\nstatic int *p = g[1], *q = g[1] + 2, *r = *(g + 2), *t = s.v, *u = s.v + 1;\n'
+                       'int main (void) { printf (p == &g[1][0] && q == &g[1][2] && r == &g[2][0] && t == &s.v[0] && u == &s.v[1] ? "ok\\n" : "no\\n"); return 0; }\n',
+    'COMMUTED_INDEX': 'int g[3][4];\nstatic int *p = &1[g][2], *q = &2[g[1]];\n'
+                      'int main (void) { printf (p == &g[1][2] && q == &g[1][2] ? "ok\\n" : "no\\n"); return 0; }\n',
+    'ADDR_OF_ARRAY_ARITH': 'int g[3][4];\nstatic int (*p)[4] = &g[1] + 1; static void *q = &g + 1;\n'
+                           'int main (void) { int (*r)[4] = &g[0] + 2; printf ((char *) p == (char *) g + 32 && (char *) q == (char *) g + 48 '
+                           '&& (char *) r == (char *) g + 32 ? "ok\\n" : "no\\n"); return 0; }\n',
+}
+
+
+def addr_bad_lines(ref_out, res):
+    """ids of the probes whose line differs from gcc's under some engine: {id: [(engine, c2m line)]}"""
+    want = ref_out.split('\n')
+    bad = {}
+    for e, (rc, out, err) in sorted(res.items()):
+        got = out.split('\n')
+        if rc != 0 and len(got) < len(want):
+            bad.setdefault('<run>', []).append((e, 'c2m failed (rc=%d): %s' % (rc, err.strip().split('\n')[-1][:160] if err.strip() else 'no message')))
+            continue
+        for a, b in zip(want, got):
+            if a != b:
+                bad.setdefault(a.split(' ')[0], []).append((e, b))
+    return bad
+
+
+def addr_focus(text, pid):
+    """the program without the probes other than pid (t6_0 -> everything named t6)"""
+    num = re.match(r'[a-z]+(\d+)', pid)
+    if not num:
+        return text
+    keep = []
+    for l in text.split('\n'):
+        ids = set(re.findall(r'\b(?:p|t|o|oa)(\d+)\b', l))
+        if ids and num.group(1) not in ids:
+            continue
+        keep.append(l)
+    return '\n'.join(keep)
+
+
+def part_addr(chk, c2m, d, quick):
+    import gen_c07_addr as AG
+    on = []
+    for sw, prog in sorted(ADDR_PROBES.items()):
+        src = os.path.join(d, 'addrprobe.c')
+        open(src, 'w').write('#include <stdio.h>\n' + prog)
+        rc, out, err = vlib.sh([c2m, '-w', src, '-ei'], timeout=20, cwd=d)
+        ok = rc == 0 and out.strip() == 'ok'
+        setattr(AG, sw, ok)
+        chk.dist('P_forms_accepted_by_this_tree', sw, 1 if ok else 0)
+        if ok:
+            on.append(sw)
+    n = 9 if quick else 150
+    nprobes = 0
+    findings = []
+    for i in range(n):
+        rng = chk.rng('addr%d' % i)
+        text, feats, expect = AG.generate(rng, nprobes=48)
+        src = os.path.join(d, 'addr.c')
+        open(src, 'w').write(text)
+        ref, why = reference_run(src, d, 'addr', False)
+        if ref is None or ref[0] != 0 or ref[1].split('\n')[:-1] != expect:
+            # the LP64 layout computed by the generator is a second opinion on the reference run
+            raise vlib.BuildError('gen_c07_addr: program %d is not a valid test (%s) or gcc disagrees with the layout computed by the generator'
+                                  % (i, why or 'offsets differ'))
+        res = c2m_runs(c2m, src, d, False)
+        chk.count('P:' + hashlib.sha1(text.encode()).hexdigest(), nontrivial=True, n=len(expect) * len(ENGINES))
+        nprobes += len(expect)
+        for f in feats:
+            chk.dist('P_features', f)
+        if i == 0:
+            chk.sample('address-constant program (first lines of the probes): ' + ' | '.join(l for l in text.split('\n') if l.startswith('static') and '=' in l)[:600])
+        bad = addr_bad_lines(ref[1], res)
+        if bad:
+            findings.append((i, text, bad, ref))
+    seen = set()
+    for i, text, bad, ref in findings[:4]:
+        for pid in sorted(bad)[:2]:
+            eng = bad[pid][0][0]
+            small = addr_focus(text, pid)
+            src = os.path.join(d, 'addrf.c')
+            open(src, 'w').write(small)
+            r2, why = reference_run(src, d, 'addrf', False)
+            if r2 is None or not prog_disagreements(r2, c2m_runs(c2m, src, d, False, [x for x in ENGINES if ename(x) == eng])):
+                small = text
+            small = shrink_program(c2m, small, d, False, eng)
+            probe = [l.strip() for l in small.split('\n') if re.search(r'=\s*[^=]', l) and re.search(r'\b(p|t|o|oa)\d+\b', l)]
+            sig = 'addr:' + hashlib.sha1(small.encode()).hexdigest()[:12]
+            if sig in seen:
+                continue
+            seen.add(sig)
+            open(src, 'w').write(small)
+            r3, _ = reference_run(src, d, 'addrf', False)
+            chk.finding(sig, dict(kind='prog', program=small, original=text, use_ext=False, engines=[b[0] for b in bad[pid]],
+                                  what=['%s: c2m prints `%s`' % b for b in bad[pid]], gcc=list(r3 or ref)),
+                        'address constant `%s`: c2m %s prints `%s`, gcc `%s` (byte offset from the start of the object)'
+                        % ((probe[0] if probe else pid)[:200], ','.join(b[0] for b in bad[pid]), bad[pid][0][1],
+                           (r3[1] if r3 else '').strip().replace('\n', ' ')[:80]))
+    chk.dist('P_programs', 'valid', n)
+    return nprobes, findings
+
+
 # ------------------------------------------------------------------ X: aggregates by value across the compiler boundary
 def _tup(x):
     return tuple(_tup(y) for y in x) if isinstance(x, list) else x
@@ -989,7 +1095,7 @@ def run(chk):
                                 'struct copies, calls, the engines']
     with Scratch() as d:
         c2m, model = tools(d)
-        parts = os.environ.get('C07_PARTS', 'ABFX')      # development switch; the registered command runs everything
+        parts = os.environ.get('C07_PARTS', 'ABFPX')      # development switch; the registered command runs everything
         n1 = n2 = n3 = n4 = n5 = n6 = 0
         model_breaks = []
         bf_tie = []
@@ -1002,6 +1108,8 @@ def run(chk):
             n4, bad_bf, bf_tie = part_bitfields(chk, c2m, model, d, quick)
         if 'B' in parts:
             n3, bad_progs = part_programs(chk, c2m, d, quick)
+        if 'P' in parts:
+            n7, bad_addr = part_addr(chk, c2m, d, quick)
         if 'X' in parts:
             n5, bad_abi = part_abi(chk, c2m, d, quick)
         if 'C' in parts or (not quick and 'C07_PARTS' not in os.environ):
@@ -1018,6 +1126,11 @@ def run(chk):
                        'F: bit-field stores (declared type x width x position in the unit x neighbours x boundary value x fill pattern x '
                        'form): assignment value, read-back and named bits of the whole object under 7 engine configurations and gcc vs '
                        'the extracted BitField model; emitted MIR access code (c2m -S) vs the model code; '
+                       'P: address constants (C11 6.6p9) into multi-dimensional arrays, array members, nested aggregates and arrays of aggregates: '
+                       'a random designator path in several equivalent spellings ([] as *(a+i) / (a+j)[k], . as (&x)->, &x+1, char* casts, '
+                       'pointer arithmetic inside the innermost array, offsetof and the (size_t)&((T*)0)->m idiom) in every static context (file / block scope, '
+                       'pointer arrays, struct members, designated) and at run time: byte offset from the object under 7 engine configurations vs gcc '
+                       'and vs the LP64 layout computed by the generator; '
                        'X: aggregates passed / returned by value between c2m code and a gcc-built shared library in both directions '
                        '(direct calls, callbacks, variadic, function pointers) and c2m to c2m: shape (systematic SysV classification '
                        'boundaries + seeded: arrays over eightbytes, nested aggregates, unions, long double, bit-fields, sizes around 16) x '
